@@ -134,7 +134,7 @@ def gen_cond(g, cls, R, Dy, Dx, ctor=None):
     diag = cls in ("diag", "identdiag")
     if cls in ("ident", "identdiag"):
         Dx = Dy
-    d = dict(cls=cls, R=R, Dy=Dy, Dx=Dx, ctor=ctor or g.choice(["Sigma", "Sigma", "Lambda", "all"]))
+    d = dict(cls=cls, R=R, Dy=Dy, Dx=Dx, ctor=ctor or g.choice(["Sigma", "Sigma", "Lambda", "all", "Sigma+Lambda"]))
     d["Sig"] = [(g.diag_spd(Dy) if diag else g.spd(Dy)) for _ in range(R)]
     if cls == "nn":
         # control function u -> u W + c0 (rational), evaluated at u [Ru, Du]; the class itself has R = 1
@@ -322,6 +322,8 @@ def _build_cond(d):
         kw = dict(Sigma=arr(d["Sig"]))
     elif d["ctor"] == "Lambda":
         kw = dict(Lambda=jarr([finv(S) for S in d["Sig"]]))
+    elif d["ctor"] == "Sigma+Lambda":          # both given, the log-determinant left to the constructor
+        kw = dict(Sigma=jarr(d["Sig"]), Lambda=jarr([finv(S) for S in d["Sig"]]))
     else:
         kw = dict(Sigma=jarr(d["Sig"]), Lambda=jarr([finv(S) for S in d["Sig"]]),
                   ln_det_Sigma=jnp.array([math.log(fdet(S)) for S in d["Sig"]]))
@@ -352,6 +354,8 @@ def coq_cond(d):
         args = "%s None None" % S
     elif d["ctor"] == "Lambda":
         args = "None (Some (lb3 %s)) None" % cb3([finv(x) for x in d["Sig"]])
+    elif d["ctor"] == "Sigma+Lambda":
+        args = "%s (Some (lb3 %s)) None" % (S, cb3([finv(x) for x in d["Sig"]]))
     else:
         args = "%s (Some (lb3 %s)) (Some (lh %s))" % (S, cb3([finv(x) for x in d["Sig"]]), cvec([fdet(x) for x in d["Sig"]]))
     if cls in ("ident", "identdiag"):
